@@ -231,10 +231,18 @@ struct CallView {
 }
 
 fn views(spec: &NodeSpec, env: &Env) -> Vec<CallView> {
+    // texts written by the node itself between two calls (entry "write_file")
+    let mut overlay: std::collections::HashMap<String, Vec<u8>> = std::collections::HashMap::new();
+    let root_s = env.root.to_string_lossy().into_owned();
     match &spec.kind {
         NodeKind::Api { calls } => calls
             .iter()
             .map(|c| {
+                if c.entry == "write_file" {
+                    if let Some(rel) = crate::node::rel_of(&root_s, env.cwd_rel, c.path.as_deref().unwrap_or("")) {
+                        overlay.insert(rel, simcore::unhex(c.write_hex.as_deref().unwrap_or("")).unwrap_or_default());
+                    }
+                }
                 let mut flags = Flags::of_call(c);
                 flags.features = effective_features(c, &spec.env);
                 let (force, report, rerun) = if c.entry == "process_root" || c.entry == "process_src" {
@@ -244,7 +252,15 @@ fn views(spec: &NodeSpec, env: &Env) -> Vec<CallView> {
                 } else {
                     (c.force, c.report, c.rerun)
                 };
-                CallView { plan: plan_call(env, c), flags, force, report, rerun }
+                let mut plan = plan_call(env, c);
+                if let CallPlan::Files { files, .. } = &mut plan {
+                    for f in files.iter_mut() {
+                        if let Some(t) = overlay.get(&f.rel) {
+                            f.text = t.clone();
+                        }
+                    }
+                }
+                CallView { plan, flags, force, report, rerun }
             })
             .collect(),
         NodeKind::Cli { args } => {
@@ -392,10 +408,20 @@ pub fn checked_build(ctx: &Ctx, spec: &NodeSpec) -> BuildObs {
         }
     }
     // output collisions are outside the documented mapping: drop checks on them
-    let mut seen: BTreeMap<String, usize> = BTreeMap::new();
+    // (the same grammar processed twice by two calls of one node is not a collision)
+    let mut seen_files: BTreeMap<String, BTreeSet<String>> = BTreeMap::new();
     for e in exps.iter() {
-        *seen.entry(canon_rel(&root, &e.planned.out_rel)).or_default() += 1;
+        seen_files.entry(canon_rel(&root, &e.planned.out_rel)).or_default().insert(canon_rel(&root, &e.planned.rel));
     }
+    let seen: BTreeMap<String, usize> = seen_files.iter().map(|(k, v)| (k.clone(), v.len())).collect();
+    // a later call of the same node supersedes an earlier one for the same output
+    let mut last_for_out: BTreeMap<String, usize> = BTreeMap::new();
+    for (i, e) in exps.iter().enumerate() {
+        if e.in_prefix {
+            last_for_out.insert(canon_rel(&root, &e.planned.out_rel), i);
+        }
+    }
+    let node_edits = matches!(&resolved.kind, NodeKind::Api { calls } if calls.iter().any(|c| c.entry == "write_file"));
     let multi_call = vs.len() > 1;
 
     // ---- run
@@ -433,9 +459,10 @@ pub fn checked_build(ctx: &Ctx, spec: &NodeSpec) -> BuildObs {
     // them would only repeat the first failure under other names
     let mut call_first_failure_seen: BTreeSet<usize> = BTreeSet::new();
     let mut after_first_failure: BTreeSet<String> = BTreeSet::new();
-    for e in &exps {
+    for (ei, e) in exps.iter().enumerate() {
         let nfail_before = failures.len();
-        let judged = !call_first_failure_seen.contains(&e.call);
+        let superseded = last_for_out.get(&canon_rel(&root, &e.planned.out_rel)).map(|l| *l != ei).unwrap_or(false);
+        let judged = !call_first_failure_seen.contains(&e.call) && !superseded;
         if !judged {
             after_first_failure.insert(e.planned.spelled.clone());
         }
@@ -525,7 +552,7 @@ pub fn checked_build(ctx: &Ctx, spec: &NodeSpec) -> BuildObs {
                 }
                 match pre {
                     OutStatus::Current => {
-                        if !any_force {
+                        if !any_force && !node_edits {
                             probes.skipped_current += 1;
                             // untouched: no mutating op on that path, same inode and mtime
                             // an O_CREAT open of a file that exists (it does: it was current) changes nothing
